@@ -5,7 +5,7 @@ Each variant file is parsed in its own namespace by re-including it with all of 
 renamed by a prefix (the same device the C harness uses to link all variants side by side).
 """
 import os, re, hashlib
-from . import cfun
+from . import cfun, math_varargs
 from .cfun import GenError
 
 VARIANTS = [
@@ -59,8 +59,9 @@ def deps(node, acc):
         deps(c, acc)
 
 
-def generate(repo, cfg_inc):
-    """returns (lean_math_text, lean_dispatch_text, meta) ; meta: list of dicts per translated function"""
+def generate(repo, cfg_inc, varargs=True):
+    """returns (lean_math_text, lean_dispatch_text, meta) ; meta: list of dicts per translated function.
+    varargs=False leaves source/math.c out (used only to keep the harness runnable when that translation fails)"""
     inc = includes(repo, cfg_inc)
     tu = tu_text(repo, VARIANTS)
     all_nodes = {}     # C prefixed name -> node
@@ -134,8 +135,14 @@ def generate(repo, cfg_inc):
         chunks.append((ns, text))
         meta.append({"variant": key, "ns": ns, "name": name, "cname": cn, "info": info})
 
+    # source/math.c (variadic checked sum): own translator, own namespace
+    va_names = []
+    if varargs:
+        va_text, va_names = math_varargs.generate(repo, inc, resolve)
+        chunks.append(("MathC", va_text))
+
     body = ["import AwsVerif.Model.CSem",
-            "/-! GENERATED by gen/math_gen.py from /repo's include/aws/common/{math*.inl,clock.inl} — do not edit. -/",
+            "/-! GENERATED by gen/math_gen.py from /repo's include/aws/common/{math*.inl,clock.inl} and source/math.c — do not edit. -/",
             "set_option linter.unusedVariables false", "namespace AwsVerif.Gen.Math", ""]
     cur = None
     for ns, text in chunks:
@@ -186,6 +193,13 @@ def generate(repo, cfg_inc):
             rhs = f"some s!\"val {{{call}}}\""
         d.append(f"  | \"{m['variant']}\", \"{m['name']}\", [{pats}] => {rhs}")
     d.append("  | _, _, _ => none")
+    d.append("")
+    d.append("/-- variadic functions of source/math.c: `num`, then the arguments actually passed (possibly more than `num`) -/")
+    d.append("def dispatchVarargs (f : String) (num : Nat) (a : List Nat) : Option String :=")
+    d.append("  match f with")
+    for n in va_names:
+        d.append(f"  | \"{n}\" => some (showRes (MathC.{n} (num % {1 << 64}) (a.map (· % {1 << 64})) 0))")
+    d.append("  | _ => none")
     d.append("")
     d.append("end AwsVerif.Gen.MathDispatch\n")
     return lean_math, "\n".join(d), meta
